@@ -56,7 +56,9 @@ func Alpha(pat string, maxAlpha int, fold bool, extra ...rune) []rune {
 	for _, r := range extra {
 		add(r)
 	}
-	for _, r := range pat {
+	// ordinary runes of the pattern first (they are what groups, sets and classes range over), then 'a',
+	// then the pattern's metacharacters
+	addFolded := func(r rune) {
 		add(r)
 		if fold && r >= 'a' && r <= 'z' {
 			add(r - 32)
@@ -65,9 +67,22 @@ func Alpha(pat string, maxAlpha int, fold bool, extra ...rune) []rune {
 			add(r + 32)
 		}
 	}
-	add('a')
-	if fold {
-		add('A')
+	isMeta := func(r rune) bool { return strings.ContainsRune("*?[]!^-\\():|@+", r) }
+	nord := 0
+	for _, r := range pat {
+		if !isMeta(r) && !seen[r] && nord < 3 {
+			nord++
+			addFolded(r)
+		}
+	}
+	addFolded('a')
+	for _, r := range pat {
+		if isMeta(r) {
+			add(r)
+		}
+	}
+	for _, r := range pat {
+		addFolded(r)
 	}
 	return alpha
 }
